@@ -18,7 +18,7 @@ _V.declare("r", ("rid", z3.IntSort()))
 V = _V.create()
 
 NONE = V.none
-SeqV = z3.SeqSort(V)
+
 I = z3.IntSort()
 B = z3.BoolSort()
 S = z3.StringSort()
